@@ -1,11 +1,11 @@
 #!/bin/sh
 # For every seeded change: apply to /repo, run the quick check of its property, undo. Writes seeded/<id>/detect.txt
 cd /verif
-for D in seeded/C*-m?; do
+for D in ${SEEDS:-seeded/C*-m?}; do
   ID=$(basename $D); PROP=${ID%%-*}
   git -C /repo apply /verif/$D/patch.diff 2>/dev/null || { echo "$ID PATCH-DOES-NOT-APPLY" | tee $D/detect.txt; continue; }
   ./check $PROP --tier quick > /tmp/seed_matrix.out 2>&1; RC=$?
-  git -C /repo checkout -- .
+  git -C /repo checkout -- . ; git -C /repo clean -fdq repid
   V=$(grep -c "^VIOLATION" /tmp/seed_matrix.out)
   LABELS=$(grep "^  H" /tmp/seed_matrix.out | sed -E "s/^  (H[^:]*): '([^']*)'.*/\1:\2/" | sort -u | head -4 | tr '\n' ' ')
   echo "$ID check=$PROP exit=$RC violations=$V $LABELS" | tee $D/detect.txt
